@@ -288,6 +288,14 @@ func Consensus(trees <-chan Trees, cutoff float64) (*Tree, error) {
 			return nil, curtree.Err
 		}
 
+		// Bipartitions are those of the unrooted tree: the two root branches of a rooted
+		// input define the same bipartition, which must be counted once (on a copy: the
+		// input tree is left as it is)
+		if curtree.Tree.Rooted() {
+			curtree.Tree = curtree.Tree.Clone()
+			curtree.Tree.UnRoot()
+		}
+
 		if err = curtree.Tree.ReinitIndexes(); err != nil {
 			return nil, err
 		}
